@@ -2049,16 +2049,44 @@ def else_default_texts(fn):
     return sorted(_shape_txt(n) for n in _own_walk(fn) if isinstance(n, ast.If) and _else_default_shape(n) is not None)
 
 
+def default_bind_texts(fn):
+    """'v = D' for every `v = D` (D simple) directly followed by an if without final else whose branches re-bind v: the defaults the
+    function sets before deciding"""
+    out = []
+    for block in _blocks(fn):
+        for a, b in zip(block, block[1:]):
+            if isinstance(a, ast.Assign) and len(a.targets) == 1 and isinstance(a.targets[0], ast.Name) and isinstance(b, ast.If):
+                v = a.targets[0].id
+                cur, ok = b, False
+                while isinstance(cur, ast.If):
+                    if any(isinstance(x, ast.Name) and x.id == v and isinstance(x.ctx, ast.Store) for s_ in cur.body for x in ast.walk(s_)):
+                        ok = True
+                    if len(cur.orelse) == 1 and isinstance(cur.orelse[0], ast.If):
+                        cur = cur.orelse[0]
+                    else:
+                        if cur.orelse:
+                            ok = False
+                        break
+                if ok:
+                    out.append('%s = %s' % (v, _txt(a.value)))
+    return sorted(out)
+
+
 def hoist_else_defaults(tree, ref):
     """`if c: v = A  [elif ..: v = B]  else: v = D`  (D a literal / plain name / dotted constant, the tests do not read v)  ->
     `v = D; if c: v = A [elif ..: v = B]`: binding a default cannot fail and nothing looks at v in between.  Only chains the reference
     function does not have in that form."""
     known = ref.get('else_defaults')
-    if known is None:
+    binds = ref.get('default_binds')
+    if known is None or binds is None:
         return 0
     total = 0
     for q, fn in functions(tree):
         keep = list(known.get(q, []))
+        # only defaults the reference function sets that way and this one does not
+        lacking = [b_ for b_ in binds.get(q, []) if b_ not in default_bind_texts(fn)]
+        if not lacking:
+            continue
         for block in _blocks(fn):
             i = 0
             while i < len(block):
@@ -2068,9 +2096,10 @@ def hoist_else_defaults(tree, ref):
                     t_ = _shape_txt(st)
                     if t_ in keep:
                         keep.remove(t_)
-                    else:
+                    elif '%s = %s' % (sh[0], _txt(sh[1].orelse[0].value)) in lacking:
                         name, last = sh
                         dflt = last.orelse[0]
+                        lacking.remove('%s = %s' % (name, _txt(dflt.value)))
                         last.orelse = []
                         for x_ in ast.walk(dflt):                  # it now stands in front of the chain: rules order statements by line
                             if hasattr(x_, 'lineno'):
@@ -2362,6 +2391,7 @@ def shape_of(tree):
         'calls': {q: call_counts(f) for q, f in functions(tree) if call_counts(f)},
         'whiles': {q: while_texts(f) for q, f in functions(tree) if while_texts(f)},
         'else_defaults': {q: else_default_texts(f) for q, f in functions(tree) if else_default_texts(f)},
+        'default_binds': {q: default_bind_texts(f) for q, f in functions(tree) if default_bind_texts(f)},
     }
 
 
